@@ -1205,3 +1205,10 @@ package mcp
 //@
 // a handler's or peer's message is carried as data: every format string is a constant
 //@ sweepscope[C02] kinds=constfmt files=client.go,handler.go,jsonrpc.go,logger.go,manager_lifecycle.go,manager_prompt.go,manager_resource.go,manager_tools.go,mcp_messages.go,mcp_notification.go,mcp_prompts.go,mcp_resources.go,mcp_tools.go,mcp_types.go,notifier.go,responder.go,responder_json.go,responder_sse.go,retry.go,server.go,session.go,sse_client.go,sse_server.go,stdio_client.go,stdio_server.go,streamable_client.go,streamable_server.go,transport_http.go,transport_stdio.go,typed_handlers.go,utils_json.go
+//@
+// legacy SSE server: a notification / server request for session S goes to the queues of the
+// session object registered under S
+//@ func SSEServer.sendNotificationToSession
+//@   before call send#1 assert[C05 queued-on-the-session-registered-under-the-addressed-id] lastloadkey == asany(sessionID) && asany(session) == lastloadval
+//@ func SSEServer.SendRequest
+//@   before call send#1 assert[C05 queued-on-the-session-registered-under-the-addressed-id] lastloadkey == asany(sessionID) && asany(session) == lastloadval
